@@ -5,5 +5,6 @@ CONSTANTS
   MaxCalls = 2
   NopProcs = {3}
   Variant = "code"
+  Ctxs = {"live"}
 INVARIANTS LawObeyed Accounted NopSticks MutexOK RegAgrees
 CHECK_DEADLOCK FALSE
